@@ -322,7 +322,6 @@ func ruleC20Load(cx *Ctx) {
 	}
 }
 
-
 // loadRecorder: when the timing wrapper around a dispatch was split into a start / finish pair, the finishing half: the
 // single method of cache that records load success / failure and takes the dispatch's error as a parameter.
 func loadRecorder(cx *Ctx) *ssa.Function {
